@@ -1,3 +1,4 @@
+CONSTANT NameBlind = FALSE
 CONSTANT Tier = "thorough"
 SPECIFICATION Spec
 INVARIANT EffectiveIsMin ArgTransparent RetTransparent MissingMethodConnects IncompatibleRejected MissingPanicsAtCall Export
